@@ -461,6 +461,9 @@ def gen_action(h, d, pfx, pools):
   """Instantiate one user action from holes.  Returns the action repr (list)."""
   kind = h.choice(pfx + "kind", pools.kinds)
   tables = d.user_tables()
+  if not d.user_tables(summaries=False):
+    # an earlier step removed the last user table: the only thing left to do is to add one
+    return ["AddTable", "Z9", [{"id": "A", "type": "Text", "isFormula": False}]]
   t0 = d.user_tables(summaries=False)[0]
   if kind == "AddTable":
     name = h.choice(pfx + "name", pools.names)
